@@ -270,6 +270,17 @@ def collision_db(r):
             als[new] = {"mutations": [list(e) for e in als[b]["mutations"]]}
             if r.random() < 0.5:
                 als[new]["label"] = f"{name}*{base}{r.choice('KLMN')}"
+    # several sub-alleles of one star allele with pairwise different core sets, all carrying the star allele's label
+    # (as CYP2D6*68.001/.002 do): the prefix and the label are taken, the ':n' suffix is needed more than once
+    if len(plain) >= 3 and r.random() < 0.35:
+        srcs = r.sample(plain, min(len(plain), r.randint(3, 4)))
+        base = srcs[0].split("*")[1].split(".")[0]
+        lab = f"{name}*{base}" if r.random() < 0.6 else f"{name}*{base}Q"
+        als[srcs[0]].setdefault("label", lab)
+        for k, src in enumerate(srcs[1:]):
+            new = f"{name}*{base}.{50 + k:03d}"
+            if new not in als:
+                als[new] = {"mutations": [list(e) for e in als[src]["mutations"]], "label": lab}
     # a renumbered copy: *10 vs *9 duplicates across majors
     if plain and r.random() < 0.4:
         src = r.choice(plain)
